@@ -49,6 +49,38 @@ CLAIMED = {
             'IEEE-754 conversion of struct e/f/d is an uninterpreted injection with unpack(pack(v)) == v; struct byte-slice rewrite rules '
             '(pack(unpack(bytes)) == bytes, recomposition of consecutive slices) are part of the trusted struct model. A1-A10; z3/cvc5.',
             'contract-based deductive verification (pyvc VC generation from /repo AST + z3/cvc5)', 'DESIGN.md section 4 C19'),
+    'C09': ('proof', 'Each of the seven execute/send pairs (sync TCP/serial/UDP, asyncio TCP/UDP, Twisted TCP/UDP) is proved against S-SERVE for an arbitrary '
+            'request (ids, function code, outcome of request.execute: normal / exception / raises), arbitrary hosted-unit sets, single/multi mode, '
+            'broadcast and ignore_missing_slaves flags: exactly one frame per accepted request, byte-identical to MBAP(tid, uid, fc or fc|0x80, payload) with '
+            'the ids echoed; nothing for broadcast, absent-unit-with-ignore, no-response messages; 0x0B for absent units; 04 for datastore failures.',
+            'Per-connection ordering ("in request order") rests on the framer calling the callback once per frame in order (C06) - assumed here. '
+            'socket.send/transport.write atomic (external). Broadcast lemmas unroll the loop over hosted units (0..3 units, symbolic ids). One known finding (Twisted UDP ignores should_respond).',
+            'contract-based deductive verification (pyvc VC generation from /repo AST + z3/cvc5)', 'DESIGN.md section 4 C09'),
+    'C10': ('proof', 'Routing clauses of S-SERVE for all seven front-ends over arbitrary hosted-unit sets (symbolic map): executed exactly once and only against '
+            'context[unit_id]; absent unit: nothing executed, silence or 0x0B; single mode: every id reaches the one context; broadcast: executed once on every '
+            'hosted unit, no response (hosted sets of 0..3 units, ids symbolic - bounded in the NUMBER of units); the unit filter _validate_unit_id against '
+            'its specification; every serving loop hands the framer all hosted units (+0 under broadcast).',
+            'Non-interference between units rests on execute() receiving only the addressed context object (proved) and contexts of distinct units being '
+            'distinct objects (configuration assumption). One known finding (sync UDP handler never admits unit 0 for broadcast).',
+            'contract-based deductive verification (pyvc VC generation from /repo AST + z3/cvc5)', 'DESIGN.md section 4 C10'),
+    'C12': ('proof', 'Safety obligations on every path: (a) one arbitrary iteration of each serving loop (3 sync handlers, 2 asyncio handlers; loop cut at the '
+            'invariant, so all iterations) with the transport returning any bytes or raising and the framer raising ANY exception: no exception escapes, and '
+            'after an exception the connection is closed or the framer reset; (b) execute() of all seven front-ends lets no exception escape and maps a '
+            'datastore failure to exception 04; (c) Twisted entry points raise only what the framer raised.',
+            'Reactor / event-loop behaviour around the proved callbacks is external (Twisted drops the connection on an exception leaving dataReceived). '
+            'That a rejected PDU never reaches the store follows from execute being the framer callback, called only after decode returned a message (C07 gate units).',
+            'contract-based deductive verification (pyvc VC generation from /repo AST + z3/cvc5)', 'DESIGN.md section 4 C12'),
+    'C15': ('other', 'Lock-ownership obligations decided on the AST/call graph of the current sources (pyvc/ownership.py): the lock is created once per manager; '
+            'the whole transaction (tid allocation, send, receive, decode, reply pick-up) is one with-lock region; guarded methods are called only inside it; '
+            'no second lock / wait inside; the client entry does nothing outside the lock (known finding: connect()). With RLock mutual exclusion every '
+            'schedule is equivalent to a serial order of whole transactions. SCHEDULES ARE NOT EXPLORED - that quantifier is outside contract-based verification.',
+            'threading.RLock semantics assumed; syntactic/call-graph analysis (name-based for method calls). A directed two-thread schedule confirms the known finding on the real code.',
+            'ownership / lock-invariant obligations (deductive, AST + call graph), part of the contract-based family', 'DESIGN.md section 4 C15'),
+    'C17': ('proof', 'Relational: all seven front-ends are proved against the same S-SERVE contract (same frames, same executions for the same inputs), stream '
+            'front-ends build a fresh framer per connection (proved on the real setup/connection_made/connectionMade), request execution has no suspension '
+            'point on the event-loop front-ends (ownership). Interleavings of several connections are NOT explored (not applicable to this family).',
+            'Three known findings: Twisted UDP should_respond; threaded server executes requests without a lock (directed two-thread lost-update witness); '
+            'datagram front-ends share one framer between peers.', 'contract-based deductive verification + ownership obligations', 'DESIGN.md section 4 C17'),
 }
 NOT_YET = 'check not built yet at this commit (planned: contract-based, see DESIGN.md section 4)'
 ALL = ['C%02d' % i for i in range(1, 21)]
